@@ -1309,6 +1309,10 @@ func (fr *Frame) trInvariant(c *Clause, st *State, h *ssa.BasicBlock) string {
 					g := "$visited:" + fr.name(rg)
 					if srt, ok := fr.u.heapSort[g]; ok {
 						env.vars["visited"] = Val{T: fr.u.heapCur(st, g), S: srt}
+						// rangedom: the key set the ranged-over map had when the range started
+						if v, ok := fr.vals[rg]; ok && v.Iter != nil && v.Iter.Dom0 != "" {
+							env.vars["rangedom"] = Val{T: v.Iter.Dom0, S: srt}
+						}
 					}
 				}
 			}
